@@ -29,6 +29,35 @@ def setup_repo_path():
         sys.path.insert(0, REPO)
 
 
+_SCRATCH = None
+
+
+def enter_scratch():
+    """chdir into a per-process-tree scratch directory outside /repo and /verif
+    (generated C is compiled in the current directory by ContextCpu); it is
+    removed when the top-level process exits.  Forked workers inherit it."""
+    global _SCRATCH
+    if _SCRATCH is None:
+        import atexit
+        import shutil
+        import tempfile
+
+        _SCRATCH = tempfile.mkdtemp(prefix="xoverif_", dir=os.environ.get("VERIF_SCRATCH", "/tmp"))
+        pid = os.getpid()
+
+        def _cleanup(d=_SCRATCH):
+            if os.getpid() == pid:
+                try:
+                    os.chdir("/")
+                except OSError:
+                    pass
+                shutil.rmtree(d, ignore_errors=True)
+
+        atexit.register(_cleanup)
+        os.chdir(_SCRATCH)
+    return _SCRATCH
+
+
 def run_rng(seed, prop, engine, index):
     # str seeds go through sha512 (seed version 2): independent of PYTHONHASHSEED
     return random.Random(f"{seed}/{prop}/{engine}/{index}")
